@@ -433,7 +433,7 @@ theorem whole_refines {ρ : Type} (b : Build) (s : PyRt.SrcNamer) (hs : WFNamer 
     cases hm : input.foldlM amStep b with
     | error e' =>
       rw [hm] at key
-      refine ⟨fun heap added s' h => by cases h, fun e'' h => ?_⟩
+      refine ⟨fun heap added s' h => (by rw [error_bind] at h; cases h), fun e'' h => ?_⟩
       rw [error_bind] at h
       cases h
       exact congrArg _ (Eq.symm key)
@@ -450,7 +450,7 @@ theorem whole_refines {ρ : Type} (b : Build) (s : PyRt.SrcNamer) (hs : WFNamer 
         obtain ⟨heap, s1, added⟩ := st
         have key : OSim b (heap, s1, added) b' := key
         rw [ok_bind, hfin]
-        refine ⟨fun heap' added' s' h => ?_, fun e h => by cases h⟩
+        refine ⟨fun heap' added' s' h => ?_, fun e h => (by cases h)⟩
         cases h
         exact ⟨key.added, key.wf, key.lossless, congrArg _ key.eq⟩
 
